@@ -231,6 +231,47 @@ func c08Run(c *engine.Ctx) {
 			c.DistinctN(int64(len(args)))
 		}
 	}
+	// (a2) the regular expression builtins over subjects x patterns x flags: groups under repetitions and alternations
+	// (captured out of textual order), named and optional groups, empty matches, multi-byte subjects, invalid patterns
+	// and invalid flags; the oracle is the same as everywhere in this check: a value or an error value, never a crash
+	c.Sub("regex-grid")
+	{
+		subjects := []any{"", "a", "ab", "ba", "aba", "xab", "é☆", "☆é☆é", "a\nb", "2024-01", "\xff", nil, 1, []any{"a"}}
+		patterns := []any{"", "a", "(a)|(b)", "(?:(a)|(b))+", "(?:(a)|(b))*", "((a)|(b))+", "(?:(b)|(a))+", "(?<x>a)|(?<y>b)", "(?:(?<x>é)|(?<y>☆))+", "(a)(b)?", "(?:(a)(b)?)*",
+			"(?:(?<m>\\d\\d$)|(?<y>^\\d{4})|-)+", "^", "$", "a*", "(a)?(b)?", ".", "\\b", "(?=a)", "(", "[", "\\", "(?<n>", "(?<x>a)(?<x>b)", nil, 1, []any{"a", "g"}, []any{"(?:(a)|(b))+", "g"}}
+		flags := []any{nil, "", "g", "gx", "n", "gn", "i", "s", "l", "z", 1}
+		progs := []string{`test($a; $b)`, `match($a; $b)`, `capture($a; $b)`, `scan($a; $b)`, `sub($a; "[\(.x)]"; $b)`, `gsub($a; "<\(.)>"; $b)`, `splits($a; $b)`, `split($a; $b)`,
+			`match($a)`, `capture($a)`, `scan($a)`, `gsub($a; "_")`, `[match($a; $b) | .captures[] | .offset] | add`}
+		ri := 0
+		for _, pr := range progs {
+			code, err := compileVars("["+pr+"] | length", "$a", "$b", "$c")
+			if err != nil {
+				c.Violation("regex-grid compile "+pr, "harness", map[string]any{"why": err.Error()})
+				continue
+			}
+			for _, sj := range subjects {
+				for _, pt := range patterns {
+					ri++
+					if !c.MineIdx(ri) || c.Expired() {
+						continue
+					}
+					for _, fl := range flags {
+						key := fmt.Sprintf("%s in=%s args=%s", pr, univ.Repr(sj), univ.Repr([]any{pt, fl}))
+						if !c.Guard(key) {
+							continue
+						}
+						c.Eval()
+						if p := c08Call(code, sj, []any{pt, fl, nil}); p != "" {
+							c.Violation(key, "crash", map[string]any{"builtin": pr, "src": pr, "input": univ.ToTagged(sj), "args": univ.ToTagged([]any{pt, fl, nil}), "why": p})
+						}
+						c.Unguard()
+					}
+					c.DistinctN(int64(len(flags)))
+				}
+			}
+		}
+		c.Sample(map[string]any{"regex_grid": fmt.Sprintf("%d programs x %d subjects x %d patterns x %d flags", len(progs), len(subjects), len(patterns), len(flags))})
+	}
 	// operators and indexing syntax (not listed by `builtins`) over every ordered pair of the universe
 	c.Sub("operator-grid")
 	{
@@ -658,7 +699,7 @@ func c08Replay(v *engine.Violation) (bool, string) {
 		inputs := []any{nil, univ.J(`[1,[2,"a"],{"a":null}]`), univ.J(`{"a":[1,2],"b":"x"}`)}
 		p := c08Exercise(d["query"].(string), inputs)
 		return p != "", p
-	case "builtin-grid", "operator-grid":
+	case "builtin-grid", "operator-grid", "regex-grid":
 		code, err := compileVars("["+d["src"].(string)+"] | length", "$a", "$b", "$c")
 		if err != nil {
 			return false, "does not compile"
